@@ -185,6 +185,8 @@ struct W<'c> {
     last_remote_out: Vec<Vec<u8>>,
     /// links[a][dir]
     links: Vec<[Vec<Vec<u8>>; 2]>,
+    /// ids of peers that were disconnected by either side (or ignored)
+    dead_pids: Vec<PeerId>,
 }
 
 enum Outcome<T> {
@@ -253,6 +255,27 @@ impl<'c> W<'c> {
                 _ => "earlier",
             };
             return Some(v("needs-tick-differs", &[("how", how)], format!("after {}: the endpoint reports deadline {:?} but the earliest deadline of the per-address connections is {:?}", what, got, want)));
+        }
+        None
+    }
+
+    /// "a peer is gone after it was disconnected by either side": the endpoint's own answer to
+    /// "is a chunk of this peer still valid?" (what an event loop asks before handing a buffered chunk
+    /// to the application) must be yes for every live peer and no for every removed one.
+    fn check_liveness(&self) -> Option<Violation> {
+        let probe = |pid: PeerId| {
+            let mut c = ChunkOrEvent::Chunk(n::Chunk { pid, vital: false, data: &[] });
+            self.net.is_receive_chunk_still_valid(&mut c)
+        };
+        for (a, s) in &self.shadows {
+            if s.pid != PeerId(u32::MAX) && !probe(s.pid) {
+                return Some(v("live-peer-reported-gone", &[], format!("peer {:?} of address {} is live but the endpoint says its chunks are no longer valid", s.pid, a)));
+            }
+        }
+        for &pid in &self.dead_pids {
+            if pid != PeerId(u32::MAX) && !self.shadows.values().any(|s| s.pid == pid) && probe(pid) {
+                return Some(v("peer-still-present-after-disconnect", &[], format!("peer {:?} was disconnected but the endpoint still knows it", pid)));
+            }
         }
         None
     }
@@ -432,6 +455,7 @@ impl Engine for MultiEngine {
             remote_closes: (0..NADDR).map(|_| Vec::new()).collect(),
             last_remote_out: Vec::new(),
             links: (0..NADDR).map(|_| [Vec::new(), Vec::new()]).collect(),
+            dead_pids: Vec::new(),
         };
         let mut crowd_seen = false;
         for op in &case.ops {
@@ -463,6 +487,11 @@ impl Engine for MultiEngine {
             }
             if let Some(v) = w.check_pids() {
                 return Some(v);
+            }
+            if !self.c02 {
+                if let Some(v) = w.check_liveness() {
+                    return Some(v);
+                }
             }
             if w.shadows.len() >= 17 && !crowd_seen {
                 crowd_seen = true;
@@ -620,7 +649,9 @@ impl MultiEngine {
                 let nr = w.net_call(ctx, a, |net, cb| if is_reject { net.reject(cb, pid, &r2) } else { net.disconnect(cb, pid, &r2) });
                 let sr = w.shadow_call(a, |c, cb| c.disconnect(cb, &r));
                 let ((nres, nout), (sres, sout)) = both!(what, a, nr, sr);
-                w.shadows.remove(&a);
+                if let Some(sh) = w.shadows.remove(&a) {
+                    w.dead_pids.push(sh.pid);
+                }
                 w.cb.fail_left[a as usize] = 0;
                 if nres.is_err() != sres.is_err() {
                     stop!(Some(v("result-differs", &[("call", what)], format!("{} for address {}: {:?} vs {:?}", what, a, nres, sres))));
@@ -646,7 +677,9 @@ impl MultiEngine {
                     }
                     Err(p) => stop!(Some(v("endpoint-panics-single-connection-does-not", &[("call", "ignore"), ("message", &p.msg_class()), ("file", &p.file_class())], format!("ignore panicked: {}", p.msg)))),
                 }
-                w.shadows.remove(&a);
+                if let Some(sh) = w.shadows.remove(&a) {
+                    w.dead_pids.push(sh.pid);
+                }
                 w.cb.fail_left[a as usize] = 0;
             }
             MultiOp::Send { a, vital, len, tag } => {
@@ -1083,7 +1116,9 @@ impl MultiEngine {
                         stop!(Some(x));
                     }
                     if gone {
-                        w.shadows.remove(&a8);
+                        if let Some(sh) = w.shadows.remove(&a8) {
+                            w.dead_pids.push(sh.pid);
+                        }
                         w.cb.fail_left[a] = 0;
                     }
                 }
